@@ -243,5 +243,6 @@ func run() ([]byte, error) {
 }
 
 func main() {
-	tx.Main(tx.Unit{Name: "T11send", File: "GenSendLoop.v", Fn: run}, tx.Unit{Name: "T11clamp", File: "GenPoolClamp.v", Fn: runClamp})
+	tx.Main(tx.Unit{Name: "T11send", File: "GenSendLoop.v", Fn: run}, tx.Unit{Name: "T11clamp", File: "GenPoolClamp.v", Fn: runClamp},
+		tx.Unit{Name: "T11paths", File: "GenAcceptPaths.v", Fn: runPaths})
 }
